@@ -36,7 +36,21 @@ def main(argv=None):
         tier = a.tier if a.tier in ('quick', 'thorough') else 'quick'
         ctx = Ctx(prop, tier, a.root, write_evidence=not a.no_evidence)
         ctx.findings_path = a.findings
-        props.run(ctx)
+        # watchdog for the rule phase: a change to the analysed code that makes a normal form
+        # explode must end as an analysis error (exit 2), not as a check that never returns
+        import signal
+        budget = float(os.environ.get('PYINS_SA_BUDGET', '600'))
+
+        def _expired(signum, frame):
+            raise TimeoutError('the rules did not finish within %.0f s (PYINS_SA_BUDGET)' % budget)
+        if hasattr(signal, 'setitimer'):
+            signal.signal(signal.SIGALRM, _expired)
+            signal.setitimer(signal.ITIMER_REAL, budget)
+        try:
+            props.run(ctx)
+        finally:
+            if hasattr(signal, 'setitimer'):
+                signal.setitimer(signal.ITIMER_REAL, 0)
         if tier == 'thorough' and not a.no_selftest:
             from pyins_sa import selftest
             selftest.run(ctx)
